@@ -302,8 +302,12 @@ func runC09Scenario(rec *Recorder, sc c09Scenario) {
 	// --- curve
 	lin := configuration.CurveConfig{ID: "c09lin", Linear: &configuration.LinearCurveConfig{Sensor: sid, Min: 40, Max: 80}}
 	pid := configuration.CurveConfig{ID: "c09pid", PID: &configuration.PidCurveConfig{Sensor: sid, SetPoint: 50, P: -0.05, I: -0.005, D: -0.001}}
-	fn := configuration.CurveConfig{ID: "c09fn", Function: &configuration.FunctionCurveConfig{Type: "maximum", Curves: []string{"c09lin", "c09pid"}}}
-	for _, cc := range []configuration.CurveConfig{lin, pid, fn} {
+	pid2 := configuration.CurveConfig{ID: "c09pid2", PID: &configuration.PidCurveConfig{Sensor: sid, SetPoint: 60, P: -0.02, I: -0.001, D: 0}}
+	// function curves: every aggregate, nesting a linear and a PID curve, only PID curves, or a single one
+	ftype := []string{"maximum", "minimum", "average", "delta", "sum", "difference"}[r.Intn(6)]
+	members := [][]string{{"c09lin", "c09pid"}, {"c09pid"}, {"c09pid", "c09pid2"}, {"c09pid", "c09lin"}}[r.Intn(4)]
+	fn := configuration.CurveConfig{ID: "c09fn", Function: &configuration.FunctionCurveConfig{Type: ftype, Curves: members}}
+	for _, cc := range []configuration.CurveConfig{lin, pid, pid2, fn} {
 		c, err := curves.NewSpeedCurve(cc)
 		must(err)
 		curves.RegisterSpeedCurve(c)
